@@ -197,6 +197,12 @@ func c08Run(c *vk.Ctx) {
 			in = o.raw[:max(50, ss+2+16)]
 		case "extended":
 			in = append(append([]byte(nil), o.raw...), randBytes(r, 1+r.Intn(300))...)
+			if (i/5)%2 == 0 {
+				// a recording followed by more than any bounded drain would read: still read silently
+				// until the deadline, like an invalid probe of that size
+				form = "extended-large"
+				in = append(in, randBytes(r, 66000+r.Intn(140000))...)
+			}
 		default:
 			enc := sscodec.NewStreamEncoder(o.key.Codec(), o.raw[:ss])
 			in = enc.Encode(targetData, nil)
@@ -382,7 +388,7 @@ func init() {
 		ID:    "C08",
 		Level: "exploration",
 		Rule: "collect: 400..4000 real connections (12 concurrent, hot keys shared) across all four ciphers with a speaking target; every response stream is decoded with the independent codec, its salt added to a set (pairwise freshness) and, for salts >= 20 bytes, its mark recomputed independently; " +
-			"burst: 16 goroutines x 2000 response streams x 3..12 rounds per cipher started concurrently on one key's salt generator (as concurrent handlers do), salts pairwise distinct and recognised; reflect: every collected server output is presented back as client input (verbatim, truncated to 50 bytes / to the header, extended, or a fresh client stream built on the server's salt), with and without FIN, replay cache off and on; class = (phase, cipher, form, cache, FIN)",
+			"burst: 16 goroutines x 2000 response streams x 3..12 rounds per cipher started concurrently on one key's salt generator (as concurrent handlers do), salts pairwise distinct and recognised; reflect: every collected server output is presented back as client input (verbatim, truncated to 50 bytes / to the header, extended by 1..300 bytes or by 66..206 KB, or a fresh client stream built on the server's salt), with and without FIN, replay cache off and on; class = (phase, cipher, form, cache, FIN)",
 		Assumptions: []string{"the target's data is itself a valid request for a sink address, so an accepted reflection would be seen as a connection to the sink", "aes-128-gcm (16-byte salt): freshness only, as the property exempts it"},
 		Batches:     func(t string) int { return map[string]int{"quick": 3, "thorough": 12}[t] },
 		Parallel:    func(t string) int { return 3 },
